@@ -37,6 +37,7 @@ const (
 	sigEmptyCluster = "cluster/empty-name-accepted-and-dumped"
 	sigLnDeleted    = "listener/deleted-listener-stays-in-dumped-config"
 	sigLnIdle       = "listener/updated-idle-timeout-applied-but-not-recorded"
+	sigZeroDefaults = "cluster/zero-values-defaulted-only-by-config-loader"
 )
 
 // ---------------------------------------------------------------------------------------------
@@ -257,12 +258,16 @@ func xdsLocalities(locs [][]mHost) []*envoy_endpoint.LocalityLbEndpoints {
 		le := &envoy_endpoint.LocalityLbEndpoints{Locality: &envoy_core.Locality{Region: "r", Zone: fmt.Sprintf("z%d", i)}, Priority: 0}
 		for _, h := range l {
 			host, port := splitAddr(h.Addr)
+			var weight *wrapperspb.UInt32Value
+			if h.Weight > 0 {
+				weight = wrapperspb.UInt32(h.Weight) // 0 = load_balancing_weight not specified
+			}
 			le.LbEndpoints = append(le.LbEndpoints, &envoy_endpoint.LbEndpoint{
 				HostIdentifier: &envoy_endpoint.LbEndpoint_Endpoint{Endpoint: &envoy_endpoint.Endpoint{Address: &envoy_core.Address{
 					Address: &envoy_core.Address_SocketAddress{SocketAddress: &envoy_core.SocketAddress{
 						Protocol: envoy_core.SocketAddress_TCP, Address: host,
 						PortSpecifier: &envoy_core.SocketAddress_PortValue{PortValue: port}}}}}},
-				LoadBalancingWeight: wrapperspb.UInt32(h.Weight),
+				LoadBalancingWeight: weight,
 			})
 		}
 		out = append(out, le)
@@ -315,8 +320,12 @@ func applyLive(n names, o *op) error {
 			c := &envoy_cluster.Cluster{
 				Name:                          n.k(xc.K),
 				LbPolicy:                      xdsLbPolicy(xc.Cluster.Lb),
-				MaxRequestsPerConnection:      wrapperspb.UInt32(xc.Cluster.MaxReq),
-				PerConnectionBufferLimitBytes: wrapperspb.UInt32(xc.Cluster.Buf),
+			}
+			if xc.Cluster.MaxReq > 0 {
+				c.MaxRequestsPerConnection = wrapperspb.UInt32(xc.Cluster.MaxReq)
+			}
+			if xc.Cluster.Buf > 0 {
+				c.PerConnectionBufferLimitBytes = wrapperspb.UInt32(xc.Cluster.Buf)
 			}
 			if xc.Eds {
 				c.ClusterDiscoveryType = &envoy_cluster.Cluster_Type{Type: envoy_cluster.Cluster_EDS}
@@ -395,13 +404,26 @@ func genVhosts(rt *rapid.T, step int) []mVhost {
 	return out
 }
 
-func genHosts(rt *rapid.T, min, max int, label string) []mHost {
+// zeroOr draws from vals; a zero ("not specified", what the debug API and the xDS converter produce for an
+// omitted field) is kept only while the zero-defaults finding is not listed as known.
+func zeroOr(rt *rapid.T, st *caseStats, label string, vals []uint32) uint32 {
+	v := rapid.SampledFrom(vals).Draw(rt, label)
+	if v == 0 && (st == nil || ev.IsKnown(partModel, sigZeroDefaults)) {
+		if st != nil {
+			st.excluded = append(st.excluded, "excluded:zero-valued-"+label)
+		}
+		return vals[len(vals)-1]
+	}
+	return v
+}
+
+func genHosts(rt *rapid.T, st *caseStats, min, max int, label string) []mHost {
 	idx := rapid.SliceOfNDistinct(rapid.IntRange(0, len(hostAddrPool)-1), min, max, func(i int) int { return i }).Draw(rt, label)
 	out := []mHost{}
 	for _, i := range idx {
 		out = append(out, mHost{
 			Addr:     hostAddrPool[i],
-			Weight:   rapid.SampledFrom([]uint32{1, 2, 50, 128}).Draw(rt, "weight"),
+			Weight:   zeroOr(rt, st, "weight", []uint32{0, 1, 2, 50, 128}),
 			Hostname: rapid.SampledFrom([]string{"", "h1"}).Draw(rt, "hostname"),
 			Zone:     rapid.SampledFrom([]string{"", "a", "b"}).Draw(rt, "zone"),
 		})
@@ -410,8 +432,8 @@ func genHosts(rt *rapid.T, min, max int, label string) []mHost {
 }
 
 // genLocalities draws 1..3 localities with pairwise disjoint endpoints (xDS endpoints carry address and weight only).
-func genLocalities(rt *rapid.T, minLocs int) [][]mHost {
-	all := genHosts(rt, 0, 5, "endpoints")
+func genLocalities(rt *rapid.T, st *caseStats, minLocs int) [][]mHost {
+	all := genHosts(rt, st, 0, 5, "endpoints")
 	for i := range all {
 		all[i].Hostname, all[i].Zone = "", ""
 	}
@@ -430,11 +452,11 @@ func genLocalities(rt *rapid.T, minLocs int) [][]mHost {
 	return locs
 }
 
-func genClusterAttrs(rt *rapid.T) *mCluster {
+func genClusterAttrs(rt *rapid.T, st *caseStats) *mCluster {
 	return &mCluster{
 		Lb:     rapid.SampledFrom(lbPool).Draw(rt, "lb"),
-		MaxReq: rapid.SampledFrom([]uint32{1, 100, 1024}).Draw(rt, "maxReq"),
-		Buf:    rapid.SampledFrom([]uint32{1024, 16384, 65536}).Draw(rt, "buf"),
+		MaxReq: zeroOr(rt, st, "maxReq", []uint32{0, 1, 1024, 100}),
+		Buf:    zeroOr(rt, st, "buf", []uint32{0, 1024, 16384, 65536}),
 	}
 }
 
@@ -481,7 +503,7 @@ func genOp(rt *rapid.T, m *model, n names, step int, prev *op, st *caseStats) *o
 	case "AddOrUpdateRouters":
 		o.R = rapid.IntRange(0, 2).Draw(rt, "router")
 		o.Vhosts = genVhosts(rt, step)
-		switch rapid.IntRange(0, 11).Draw(rt, "routerDefect") {
+		switch rapid.IntRange(0, 19).Draw(rt, "routerDefect") {
 		case 0:
 			o.Note = "bad-regex"
 			vh := &o.Vhosts[len(o.Vhosts)-1]
@@ -519,9 +541,9 @@ func genOp(rt *rapid.T, m *model, n names, step int, prev *op, st *caseStats) *o
 		}
 	case "AddOrUpdatePrimaryCluster":
 		o.K = rapid.IntRange(0, 2).Draw(rt, "cluster")
-		o.Cluster = genClusterAttrs(rt)
+		o.Cluster = genClusterAttrs(rt, st)
 		if rapid.IntRange(0, 2).Draw(rt, "withCfgHosts") == 0 {
-			o.CfgHosts = genHosts(rt, 1, 2, "cfgHosts")
+			o.CfgHosts = genHosts(rt, st, 1, 2, "cfgHosts")
 		}
 		if rapid.IntRange(0, 11).Draw(rt, "emptyName") == 0 {
 			if ev.IsKnown(partModel, sigEmptyCluster) {
@@ -532,11 +554,11 @@ func genOp(rt *rapid.T, m *model, n names, step int, prev *op, st *caseStats) *o
 		}
 	case "AddOrUpdateClusterAndHost":
 		o.K = rapid.IntRange(0, 2).Draw(rt, "cluster")
-		o.Cluster = genClusterAttrs(rt)
-		o.Hosts = genHosts(rt, 0, 4, "hosts")
+		o.Cluster = genClusterAttrs(rt, st)
+		o.Hosts = genHosts(rt, st, 0, 4, "hosts")
 	case "UpdateClusterHosts", "AppendClusterHosts":
 		o.K = pickIdx(rt, kExists, "cluster")
-		o.Hosts = genHosts(rt, 0, 4, "hosts")
+		o.Hosts = genHosts(rt, st, 0, 4, "hosts")
 	case "RemoveClusterHosts":
 		o.K = pickIdx(rt, kExists, "cluster")
 		idx := rapid.SliceOfN(rapid.IntRange(0, len(hostAddrPool)-1), 0, 3).Draw(rt, "addrs")
@@ -555,16 +577,16 @@ func genOp(rt *rapid.T, m *model, n names, step int, prev *op, st *caseStats) *o
 	case "XdsClusters":
 		nc := rapid.IntRange(1, 2).Draw(rt, "nXdsClusters")
 		for i := 0; i < nc; i++ {
-			xc := xdsCluster{K: rapid.IntRange(0, 2).Draw(rt, "cluster"), Eds: rapid.Bool().Draw(rt, "eds"), Cluster: *genClusterAttrs(rt)}
+			xc := xdsCluster{K: rapid.IntRange(0, 2).Draw(rt, "cluster"), Eds: rapid.Bool().Draw(rt, "eds"), Cluster: *genClusterAttrs(rt, st)}
 			if !xc.Eds {
-				xc.Locs = genLocalities(rt, 0)
+				xc.Locs = genLocalities(rt, st, 0)
 			}
 			o.XdsCs = append(o.XdsCs, xc)
 		}
 	case "XdsEndpoints":
 		na := rapid.IntRange(1, 2).Draw(rt, "nAssignments")
 		for i := 0; i < na; i++ {
-			cla := xdsCLA{K: pickIdx(rt, kExists, "cluster"), Locs: genLocalities(rt, 0)}
+			cla := xdsCLA{K: pickIdx(rt, kExists, "cluster"), Locs: genLocalities(rt, st, 0)}
 			if needsUnion(cla.Locs) && kExists(cla.K) {
 				// F13: the converter replaces the host set once per locality. When (and only when) that
 				// finding is listed as known, assignments that need the union are excluded by
@@ -808,85 +830,106 @@ func TestPropHistories(t *testing.T) {
 	ev.Check(t, func(rt *rapid.T) { historyCase(rt) })
 }
 
-func historyCase(rt *rapid.T) {
-	n := names{pfx: nextPrefix()}
+// run is one history being executed against the model and against MOSN.
+type run struct {
+	tb         ev.TB
+	part       string
+	n          names
+	m          *model
+	st         *caseStats
+	ops        []*op
+	nontrivial bool
+	classes    map[string]bool
+}
+
+func newRun(tb ev.TB, part string) *run {
 	resetStored()
-	m := newModel()
-	st := &caseStats{deletedListeners: map[string]bool{}}
-	ops := []*op{}
-	nontrivial := false
-	classes := map[string]bool{}
+	return &run{tb: tb, part: part, n: names{pfx: nextPrefix()}, m: newModel(), st: &caseStats{deletedListeners: map[string]bool{}}, classes: map[string]bool{}}
+}
 
-	defer cleanup(n)
-	defer func() {
-		canon, _ := json.Marshal(ops)
-		cl := []string{}
-		for c := range classes {
-			cl = append(cl, c)
+// finish records the case and removes what it left in the process singletons.
+func (r *run) finish() {
+	canon, _ := json.Marshal(r.ops)
+	cl := []string{}
+	for c := range r.classes {
+		cl = append(cl, c)
+	}
+	cl = append(cl, r.st.excluded...)
+	sort.Strings(cl)
+	ops, pfx := r.ops, r.n.pfx
+	ev.Case(r.part, r.nontrivial, canon, func() interface{} { return map[string]interface{}{"prefix": pfx, "history": ops} }, cl...)
+	ev.Extra(r.part, "steps", int64(len(r.ops)))
+	cleanup(r.n)
+}
+
+// step applies one operation to the model and to MOSN and runs the oracle.
+func (r *run) step(o *op) {
+	m, n, st, classes := r.m, r.n, r.st, r.classes
+	r.ops = append(r.ops, o)
+	e := applyModel(m, n, o)
+	o.Applied = e.applied
+	var err error
+	if pn, stack := safely(func() { err = applyLive(n, o) }); pn != nil {
+		ev.Fail(r.tb, r.part, "panic-in-update:"+o.label(), "history %s :: %s panicked: %v\n%s", histJSON(r.ops), o.label(), pn, stack)
+	}
+	if err != nil {
+		o.Err = err.Error()
+	}
+	if e.applied && !e.partial && err != nil {
+		ev.Fail(r.tb, r.part, "valid-update-rejected:"+o.label(), "history %s :: the last operation is valid but MOSN returned %v", histJSON(r.ops), err)
+	}
+	if o.Kind == "DeleteListener" && e.removed {
+		st.deletedListeners[n.l(o.L)] = true
+	}
+	if o.Kind == "AddOrUpdateListener" && e.applied {
+		delete(st.deletedListeners, n.l(o.L))
+	}
+	classes["op:"+o.Kind] = true
+	if o.Note != "" {
+		classes["invalid:"+o.Note] = true
+	}
+	if !e.applied {
+		classes["rejected-or-noop"] = true
+	} else {
+		classes["applied:"+o.Kind] = true
+	}
+	if o.Repeat {
+		classes["repeat"] = true
+	}
+	if e.updatedExisting {
+		classes["update-existing"] = true
+	}
+	if e.removed {
+		classes["removal"] = true
+	}
+	if o.Kind == "XdsClusters" {
+		for _, xc := range o.XdsCs {
+			if !xc.Eds && needsUnion(xc.Locs) {
+				classes["xds-static-multi-locality"] = true
+			}
 		}
-		cl = append(cl, st.excluded...)
-		sort.Strings(cl)
-		ev.Case(partModel, nontrivial, canon, func() interface{} { return map[string]interface{}{"prefix": n.pfx, "history": ops} }, cl...)
-		ev.Extra(partModel, "steps", int64(len(ops)))
-	}()
+	}
+	if o.Kind == "XdsEndpoints" {
+		for _, cla := range o.XdsEs {
+			if needsUnion(cla.Locs) && m.clusters[n.k(cla.K)] != nil {
+				classes["xds-eds-multi-locality"] = true
+			}
+		}
+	}
+	if e.updatedExisting || e.removed {
+		r.nontrivial = true // every step is probed by the oracle, so the update/removal is always probed afterwards
+	}
+	checkState(r.tb, r.part, m, n, r.ops, o, st)
+}
 
+func historyCase(rt *rapid.T) {
+	r := newRun(rt, partModel)
+	defer r.finish()
 	steps := rapid.IntRange(1, 25).Draw(rt, "steps")
 	var prev *op
 	for step := 0; step < steps; step++ {
-		o := genOp(rt, m, n, step, prev, st)
-		ops = append(ops, o)
-		e := applyModel(m, n, o)
-		o.Applied = e.applied
-		var err error
-		if pn, stack := safely(func() { err = applyLive(n, o) }); pn != nil {
-			ev.Fail(rt, partModel, "panic-in-update:"+o.label(), "history %s :: %s panicked: %v\n%s", histJSON(ops), o.label(), pn, stack)
-		}
-		if err != nil {
-			o.Err = err.Error()
-		}
-		if e.applied && !e.partial && err != nil {
-			ev.Fail(rt, partModel, "valid-update-rejected:"+o.label(), "history %s :: the last operation is valid but MOSN returned %v", histJSON(ops), err)
-		}
-		if o.Kind == "DeleteListener" && e.removed {
-			st.deletedListeners[n.l(o.L)] = true
-		}
-		if o.Kind == "AddOrUpdateListener" && e.applied {
-			delete(st.deletedListeners, n.l(o.L))
-		}
-		classes["op:"+o.Kind] = true
-		if o.Note != "" {
-			classes["invalid:"+o.Note] = true
-		}
-		if !e.applied {
-			classes["rejected-or-noop"] = true
-		}
-		if o.Repeat {
-			classes["repeat"] = true
-		}
-		if e.updatedExisting {
-			classes["update-existing"] = true
-		}
-		if e.removed {
-			classes["removal"] = true
-		}
-		if o.Kind == "XdsClusters" {
-			for _, xc := range o.XdsCs {
-				if !xc.Eds && needsUnion(xc.Locs) {
-					classes["xds-static-multi-locality"] = true
-				}
-			}
-		}
-		if o.Kind == "XdsEndpoints" {
-			for _, cla := range o.XdsEs {
-				if needsUnion(cla.Locs) && m.clusters[n.k(cla.K)] != nil {
-					classes["xds-eds-multi-locality"] = true
-				}
-			}
-		}
-		if e.updatedExisting || e.removed {
-			nontrivial = true // every step is probed below, so the update/removal is always probed afterwards
-		}
-		checkState(rt, m, n, ops, o, st)
+		o := genOp(rt, r.m, r.n, step, prev, r.st)
+		r.step(o)
 		prev = o
 	}
 }
@@ -913,9 +956,9 @@ func cleanup(n names) {
 }
 
 // checkState is the oracle run after every step.
-func checkState(rt *rapid.T, m *model, n names, ops []*op, last *op, st *caseStats) {
+func checkState(tb ev.TB, part string, m *model, n names, ops []*op, last *op, st *caseStats) {
 	fail := func(sig, format string, a ...interface{}) {
-		ev.Fail(rt, partModel, sig, "history %s :: after %s: %s", histJSON(ops), last.label(), fmt.Sprintf(format, a...))
+		ev.Fail(tb, part, sig, "history %s :: after %s: %s", histJSON(ops), last.label(), fmt.Sprintf(format, a...))
 	}
 	var d *dumped
 	var derr error
@@ -1071,10 +1114,20 @@ func checkClusters(m *model, n names, d *dumped, last *op, fail failFn) {
 		fc := cluster.NewCluster(pcs[0])
 		cluster.NewSimpleHostHandler(fc, hostMap[name])
 		fsnap := fc.Snapshot()
+		zeroW := false
+		for _, h := range mc.Hosts {
+			zeroW = zeroW || h.Weight == 0
+		}
 		if got, want := hostsKey(liveHosts), hostsKey(snapshotHosts(fsnap)); got != want {
+			if zeroW {
+				fail(sigZeroDefaults, "cluster %q has a host without weight: live hosts [%s], a cluster built from the dump the way start-up does has [%s]", name, got, want)
+			}
 			fail("cluster/live-hosts-differ-from-fresh-dump:"+op, "cluster %q live hosts [%s], a cluster built from the dump has [%s]", name, got, want)
 		}
 		if got, want := infoAttrs(snap.ClusterInfo()), infoAttrs(fsnap.ClusterInfo()); got != want {
+			if mc.MaxReq == 0 || mc.Buf == 0 {
+				fail(sigZeroDefaults, "cluster %q was written without max_request_per_conn/conn_buffer_limit_bytes: live %s, a cluster built from the dump the way start-up does %s", name, got, want)
+			}
 			fail("cluster/live-attributes-differ-from-fresh-dump:"+op, "cluster %q live %s, a cluster built from the dump %s", name, got, want)
 		}
 		if snap.HostNum(nil) != fsnap.HostNum(nil) || snap.IsExistsHosts(nil) != fsnap.IsExistsHosts(nil) {
